@@ -178,3 +178,26 @@ check("C20", "model_checking",
       "checked only for 'no message dropped for an unknown id'; futures-channel is trusted.",
       "TLC exhaustive model checking of AsyncRouter.tla + TLC trace validation of recorded executions (AsyncTrace.tla)",
       "DESIGN.md 3.7, 6 (C20)")
+check("C08", "model_checking",
+      "OneShot.tla (names, listening socket and its file-system entries, connect before/after accept, data queued before "
+      "accept, client exit, accept consuming the server, server drop) is enumerated by TLC: every order of the operations "
+      "for one server to the bound, two servers by simulation, messages small/multi-packet with/without an attached "
+      "region. Each behaviour is replayed with the client as a thread and as a spawned process (its exit is a real process "
+      "exit); an accept called first is parked until the thread is asleep in accept(2). Compared after every step: results "
+      "of connect/send/accept/recv, message order and contents, existence of the socket path and its directory, "
+      "distinctness of all names issued, and the process' descriptor count at the end of the behaviour.",
+      "Premise K11; clients are spawned (not forked); 1..3 messages per client in generated behaviours.",
+      "TLC exhaustive + simulation of OneShot.tla, behaviours replayed through the API with per-step projection",
+      "DESIGN.md 3.8, 6 (C08)")
+check("C11", "model_checking",
+      "Resources.tla is a ledger monitor (descriptors with close-on-exec flag, shared mappings, control buffers, per "
+      "process): CloseOwnedOnce, AllCloexec, UnmapMatches, no double free, empty at quiescence. TLC validates against it "
+      "the complete hook trace of thousands of Channels.tla behaviours (create, clone, send small/multi-packet with "
+      "attachments, receive, transfer, drop in any order, failing sends, agent processes exiting) executed on the real "
+      "crate; after every behaviour the ledger must be empty and /proc/self/fd and /proc/self/maps must be back at their "
+      "baseline (so an unhooked creation is noticed too); in the middle of every 7th behaviour an unrelated child is "
+      "spawned and reports the descriptors it was born with.",
+      "The ledger sees what the hooks report (cross-checked with /proc); mio's epoll descriptor and tempfile's directory "
+      "are observed through /proc and the file system only.",
+      "TLC trace validation of recorded executions against the Resources.tla ledger + /proc cross-check",
+      "DESIGN.md 3.9, 6 (C11)")
